@@ -54,7 +54,7 @@ func (a *SayMsgAction) Execute(run flows.Run, step flows.Step, logModifier flows
 	evaluatedText = strings.TrimSpace(evaluatedText)
 
 	// localize the audio URL
-	localizedAudioURL, _ := run.GetText(uuids.UUID(a.UUID()), "audio_url", a.AudioURL)
+	localizedAudioURL, audioLang := run.GetText(uuids.UUID(a.UUID()), "audio_url", a.AudioURL)
 
 	// the URL becomes an attachment of the message so the limit for those applies
 	if len("audio:"+localizedAudioURL) > flows.MaxAttachmentLength {
@@ -71,7 +71,13 @@ func (a *SayMsgAction) Execute(run flows.Run, step flows.Step, logModifier flows
 	// an IVR flow must have been started with a call
 	call := run.Session().Trigger().Call()
 
-	msg := flows.NewIVRMsgOut(call.URN(), call.Channel(), evaluatedText, localizedAudioURL, currentLocale(run, textLang))
+	// like any other message, one without text is in the language of its attachment
+	lang := textLang
+	if evaluatedText == "" {
+		lang = audioLang
+	}
+
+	msg := flows.NewIVRMsgOut(call.URN(), call.Channel(), evaluatedText, localizedAudioURL, currentLocale(run, lang))
 	logEvent(events.NewIVRCreated(msg))
 
 	return nil
